@@ -58,6 +58,7 @@ DoAggregate == StepOf("aggregate") DoGroup == StepOf("group")
 DoWindow == StepOf("window")      DoJoin == StepOf("join")
 DoAppend == StepOf("append")
 DoExclude == StepOf("exclude")
+DoFromLit == StepOf("fromlit")
 \* SurplusArg / UnknownNamedArg / ScalarAsRelation / RelationAsScalar
 DoBad == StepOf("bad")
 
@@ -101,7 +102,7 @@ Failure ==
 
 TNext == \/ Database \/ Reset \/ DeclLet \/ DeclFunc
          \/ DoFrom \/ DoSelect \/ DoDerive \/ DoFilter \/ DoSort \/ DoTake
-         \/ DoAggregate \/ DoGroup \/ DoWindow \/ DoJoin \/ DoAppend \/ DoExclude \/ DoBad
+         \/ DoAggregate \/ DoGroup \/ DoWindow \/ DoJoin \/ DoAppend \/ DoExclude \/ DoFromLit \/ DoBad
          \/ Observe \/ CompileError \/ Failure
 
 TraceSpec == TInit /\ [][TNext]_vars
